@@ -116,12 +116,17 @@ def str_tree():
             must_raise = body_kind == "list" and cid.startswith("inside")
             # a list-pattern macro cannot be used inside a name: the expander raises -- the reference is never kept as text
             BODY = "BODY" if body_kind != "esc" else "B\\dY\\b\\1"      # a body holding regex escapes is copied literally
+            frame: List[bool] = []
 
             def fn():
                 t = mk()
                 rm: set = set()
                 body: Any = BODY if body_kind != "list" else [Opaque("body0")]
-                r = J.mexp.MacroExpander()._apply_macro_recursively(macro=_macro(body), tree=t, rule_macros=rm)
+                mdef = _macro(body)
+                keys0, body0 = list(mdef.keys()), mdef["pattern"]
+                r = J.mexp.MacroExpander()._apply_macro_recursively(macro=mdef, tree=t, rule_macros=rm)
+                # the definition is not altered by being used (C13): same keys, same body object
+                frame.append(list(mdef.keys()) == keys0 and mdef.get("pattern") is body0 and mdef.get("name") == "@m")
                 return [r, rm, t]
             try:
                 runr = sym_run(fn)
@@ -130,6 +135,10 @@ def str_tree():
                                      ["C13", "C19"], detail=f"unsupported: {e}"))
                 continue
             c = runr.ctx
+            if not must_raise:
+                obs.append(simple_ob(f"_apply_macro_recursively:str:{cid}:{body_kind}:FRAME-definition", func, "FRAME",
+                                     f"[{cid}] the macro definition is not altered by being used (same keys, same body): a second use sees it as written",
+                                     bool(frame) and all(frame), ["C13", "C14"], detail=repr(frame), witness=cid))
             for i, p in enumerate(runr.paths):
                 base = f"_apply_macro_recursively:str:{cid}:{body_kind}:p{i}"
                 if must_raise:
